@@ -1600,6 +1600,9 @@ class Wtp:
                                 k = expand_recurse(k, parent, True)
                                 k = re.sub(r"\s+", " ", k).strip()
                                 self.expand_stack.pop()
+                                if is_numbered_arg_name(k):
+                                    # the name was computed ({{t|{{n}}=x}})
+                                    k = int(k)
                         else:
                             k = num
                             num += 1
